@@ -9,6 +9,10 @@ tie    : exact correspondence (rational canonical forms) of the Lean model *and*
          `make_event_matrix` of the working tree; translate/arith_C16.json regenerates the
          source's guards / comparisons / count arithmetic / denominators into
          Generated/ArithC16.lean, the gen_* theorems state the model in terms of them
+         round 4: the float64 strengths / ES matrices bit for bit (esf64, esmatf64: model sqrt53 +
+         rn53), thresholding also through NumPy's own quantile / median algorithm (mkevnp);
+         translate/gen_C16.py additionally regenerates the dtype / stores of the threshold array
+         and the 'linear' quantile expressions of the installed NumPy
 search : the published counting formulas as plain loops in `Fraction`, the
          range / exchange / shift / rescaling relations on the implementation,
          the N×N matrix against the static pairwise calls, thresholding against
@@ -322,7 +326,8 @@ def run(ctx):
                 "taumax in {inf,0,.5,...,5} or wide {2^-10,2^-4,64,2048}, lag in {0,+-.5,+-1,2,-1.5} or "
                 "wide {2^-10,-2^-4,100,-64,4096}; each request answered by the Lean model and by the Lean "
                 "published formula; matrix level: EventSeries objects N=1..6, T<=20 x all symmetrisations / "
-                "windows, default arguments, multi-step histories; thresholding: float64/float32/int data x "
+                "windows, default arguments, multi-step histories; thresholding: float64 (incl. values needing 30+ bits) / "
+                "float32 / int64..int8 / uint8 / uint16 data x "
                 "quantiles k/8, k/16 / values / types / defaults, scalar / array / list parameters, static "
                 "call and constructor (both axis orders); distinct = distinct canonical request; non-trivial "
                 "= both series have >= 3 events (ES) / >= 1 event (ECA) / data not constant (thresholding)")
@@ -330,9 +335,15 @@ def run(ctx):
         "event times / time stamps strictly increasing; event matrices binary",
         "correspondence inputs are dyadic rationals (decisions exact in float64 and, where used, float32); "
         "float results compared as canonical small rationals under tolerance 1e-9 (ES, squared) / 3e-7 "
-        "(ECA, float32)",
-        "the division by sqrt((lx-2)(ly-2)) is modelled over the reals only (theorems es_strength_range, "
-        "esSymmOp_value); the executable model returns the counts and the squared norm",
+        "(ECA, float32) and, in separate requests, bit for bit (esf64 / esmatf64 / ecaf32 / ecamatf32)",
+        "float64 strengths: np.sqrt and / are correctly rounded (IEEE 754); the model's sqrt53 (double nearest "
+        "to sqrt n, from the integer square root of n*4^54) and rn53 are compared bit for bit with the "
+        "implementation; the float-level [0,1] theorem (es_f64_range) needs (lx-2)(ly-2) <= 2^48; the "
+        "real-number theorems (es_strength_range, esSymmOp_value) remain",
+        "np.quantile / np.median are modelled from the installed NumPy's source (regenerated by "
+        "translate/gen_C16.py, theorem np_quantile_is_model); partition is modelled as a sort; NumPy's float "
+        "_lerp is exact on the dyadic generator data; integer data are compared with float64 thresholds after "
+        "conversion to float64 (exact below 2^53)",
         "event_series_analysis(method='ES', symmetrization='directed') returns the memoised matrix itself "
         "(the library's convention for cached results); histories in which the *caller* writes into a returned "
         "array are outside the statement, histories in which the *library* does are checked (theorem "
@@ -855,6 +866,12 @@ def run(ctx):
                                                         np.uint8, np.uint16]))
         if np.dtype(ddt).kind == "u":
             data = data + span                             # unsigned observables: counts
+        if ddt is float and rng.random() < 0.2:
+            # values that need more than 24 significant bits (a float32 threshold array, or a
+            # float32 intermediate anywhere, would move thresholds across data values)
+            data = data + np.array([[rng.randrange(-3, 4) * 2.0 ** -30 for _ in range(N)]
+                                    for _ in range(T)])
+            ctx.count("threshold:data=fine(2^-30)")
         data = data.astype(ddt)
         if rng.random() < 0.2:
             data = np.asfortranarray(data)
